@@ -130,6 +130,20 @@ def lin_suite(name, impl, quick, thorough, extra=None):
     }
 
 
+def crash_suite(name, quick, thorough):
+    return {
+        "name": name, "cmd": ["crash", "--len", "30"], "uses_dir": True,
+        "header": REPO_HEADER.replace("PropCheck", "Findings"), "hist_type": "crashcase",
+        "eval": "Definition M := Eval vm_compute in crash_violations cfg_ent cases 0.\nPrint M.\n"
+                "Definition V := Eval vm_compute in M.\nPrint V.",
+        "diag": "Eval vm_compute in (omap (fun x => (crash_check cfg_ent x, cr_inflight x, map (fun t => (t_id t, t_state t)) (cr_dump x), "
+                "omap (map (fun t => (t_id t, t_state t))) (hist_state cfg_ent [] (cr_acked x)))) (nth_error cases {k})).",
+        "show": "Eval vm_compute in (omap (fun x => (map fst (cr_acked x), cr_inflight x, map fst (cr_post x))) (nth_error cases {k})).",
+        "sig": "false", "timeout": 900,
+        "quick": quick, "thorough": thorough,
+    }
+
+
 SUITES = {
     "C01": {"suites": [
         repo_suite("c01-inmem", "inmem", "c01", "p_C01", {"n": 25, "shards": 8}, {"n": 200, "shards": 16, }),
@@ -150,7 +164,8 @@ SUITES = {
         repo_suite("c11-ent-keys", "ent", "c11", "p_C11", {"n": 10, "shards": 2}, {"n": 100, "shards": 8}, extra=["--quotekeys"]),
     ]},
     "C13": {"suites": [
-        repo_suite("c13-ent", "ent", "c13", "(p_and p_C13 (p_and p_C01 (p_and p_C02 p_C12)))", {"n": 15, "shards": 12}, {"n": 120, "shards": 16}),
+        repo_suite("c13-ent", "ent", "c13", "(p_and p_C13 (p_and p_C01 (p_and p_C02 p_C12)))", {"n": 15, "shards": 8}, {"n": 120, "shards": 16}),
+        crash_suite("c13-crash", {"n": 10, "shards": 6}, {"n": 70, "shards": 16}),
     ]},
     "C14": {"suites": [
         snap_suite("c14-snap", {"n": 20, "shards": 12}, {"n": 150, "shards": 16}),
@@ -228,5 +243,5 @@ ASSUMPTIONS = [
 PARTIAL = {
     "C10": "mutual exclusion of sync.Mutex, atomicity of one SQLite statement and the Go memory model are assumed; real concurrent histories are recorded and judged, goroutine interleavings are sampled by the runtime, not enumerated",
     "C08": "goroutine scheduling, the unbuffered-channel rendezvous and ngicks/workerpool (Add/Remove/worker loop) are modelled by an LTS over observable events, not verified; the real dispatcher's event sequences are validated against it",
-    "C13": "durability and single-statement atomicity of SQLite are assumed by the model (each acknowledged operation = one transition); exercised by the harness, not proved",
+    "C13": "durability and single-statement atomicity of SQLite are assumed by the model (each acknowledged operation = one transition); exercised by SIGKILLing a child process at operation boundaries and inside operations, not proved; kills of a whole scheduler + worker-pool pipeline are not exercised",
 }
